@@ -543,6 +543,42 @@ def _s3(program, res):
             res.fail_at("C12-S3", vi, "foreign-scalar-printed-with-its-own-repr",
                         "Value admits any type the equivalence table maps to int/float/str/bool (numpy scalars) but stores and prints the object as given: "
                         "repr(numpy.float64(2.0)) is 'np.float64(2.0)', so select_rows(x > numpy.float64(2.0)) prints text that can not be evaluated (unknown symbol np)")
+    # the same for the other carriers of raw literals: a class of expr_rep whose to_python prints stored items with repr and whose constructor
+    # takes them from the caller as they are (DictTerm: keys and values of a mapv dictionary) has to bring them to the canonical builtin types too
+    er = program.module("expr_rep")
+    n_carriers = 0
+    for cls_ in program.all_classes():
+        if cls_.module is not er or cls_.name == "Value":
+            continue
+        tp = cls_.methods.get("to_python")
+        ini = cls_.methods.get("__init__")
+        if tp is None or ini is None:
+            continue
+        prints_items = any(isinstance(c, ast.Call) and isinstance(c.func, ast.Attribute) and c.func.attr == "__repr__" and "self.value" not in unparse(c.func.value)
+                           and not any(isinstance(x, ast.Attribute) and x.attr == "to_python" for x in ast.walk(c.func.value)) for c in ast.walk(tp.node))
+        stores_raw = any(isinstance(st, ast.Assign) and unparse(st.targets[0]) == "self.value" for st in ast.walk(ini.node))
+        if not (prints_items and stores_raw):
+            continue
+        n_carriers += 1
+        res.analysed(tp, ini)
+        def _is_canon_call(c, scope):
+            if not isinstance(c, ast.Call):
+                return False
+            if (dotted_name(c.func) or "").endswith("map_type_to_canonical"):
+                return True
+            if isinstance(c.func, ast.Name):
+                helper = next((h for h in ast.walk(scope) if isinstance(h, ast.FunctionDef) and h.name == c.func.id and h is not scope), None)
+                return helper is not None and any(isinstance(x, ast.Call) and (dotted_name(x.func) or "").endswith("map_type_to_canonical") for x in ast.walk(helper))
+            return False
+        stores = [st for st in ast.walk(ini.node) if isinstance(st, ast.Assign) and unparse(st.targets[0]) == "self.value"]
+        canon = any(any(_is_canon_call(c, ini.node) for c in ast.walk(st.value)) for st in stores) \
+            or any(_is_canon_call(c, tp.node) for c in ast.walk(tp.node) if not isinstance(c, ast.FunctionDef))
+        if canon:
+            res.ok("C12-S3", f"{cls_.name}: items printed with repr are brought to their canonical builtin types first")
+        else:
+            res.fail_at("C12-S3", ini, f"foreign-scalar-printed-with-its-own-repr:{cls_.name}",
+                        f"{cls_.name} stores the caller's items as given and prints each with repr: a mapv dictionary built from numpy values "
+                        f"(dict(zip(codes.k.values, codes.v.values))) prints {{np.int64(1): np.float64(10.5)}}, which eval_da_ops can not read (unknown symbol np)")
     # dict keys of ops printed with repr in node printers: k.__repr__() + ": " + opi.to_python().__repr__()
     for cname in ("ExtendNode", "ProjectNode"):
         pr = program.method("view_representations", cname, "to_python_src_", inherited=False)
